@@ -1019,6 +1019,11 @@ class Executor:
                             from .stdmodels import tlen
                             n_it = tlen(itv)
                             after = n_it if st.env[lid] == lit(0) else ("app", "add", (st.env[lid], n_it))
+                if after[0] == "sym" and lid in lv_of:
+                    # loop-carried variable: value before the loop, its symbol inside the body, its value at the end of
+                    # each pass (an accumulation `acc = f(acc, elem)` is a fold — see as_left_fold)
+                    e.setdefault("carried", {})[after] = {"name": name, "init": st.env[lid], "acc": lv_of[lid],
+                                                          "steps": [s.env.get(lid) for s, _ in finals], "every_iteration": every_iteration}
                 st.env[lid] = after
         # a loop that pushes exactly one value per iteration onto a vector that was empty is a `map(..).collect()`
         if every_iteration and closure is None:
@@ -1105,6 +1110,8 @@ class Executor:
                                                           if x["k"] not in ("assume", "arm")) and itv[0] == "iter" and all(f == "enumerate" for f in itv[3]) and not itv[3]:
             # nothing but the push happens: the pure element-wise mapping `base.iter().map(f).collect()`
             coll = app("map_of", ("iter", itv[1], itv[2], ()), results[0], e["elem"])
+            if results[0] == e["elem"] and itv[2] == "fwd" and not (itv[1][0] == "app" and itv[1][1] in ("chars", "bytes", "keys", "values", "lines", "char_indices")):
+                coll = itv[1]       # element-wise identity: the same sequence
             if st.eff and st.eff[-1] is e:
                 st.eff.pop()
             for k2 in list(st.env):
@@ -1292,6 +1299,115 @@ def vec_contents(obj, effs):
             elif not e["args"][0][1].endswith(("::len", "::is_empty", "::iter", "::as_slice")):
                 return None
     return tuple(out)
+
+
+def as_left_fold(t, effs):
+    """`t` as an accumulation over a sequence: {'seq': iterator term, 'init', 'acc', 'elem', 'steps': [term, …]} when t is
+    the value of `iter.fold(init, |acc, elem| step)` or of a variable updated as `acc = step` on every pass of a for
+    loop; None otherwise. Orientation and adaptors stay visible in 'seq'."""
+    for e in _all_effs(effs):
+        if e["k"] != "foreach":
+            continue
+        if t == ("app", "fold_of", (("lit", e.get("loop")),)) and e.get("driver") == "fold" and "fold_acc" in e:
+            return {"seq": e["args"][0], "init": e["fold_init"], "acc": e["fold_acc"], "elem": e["elem"], "steps": list(e["results"]),
+                    "complete": not e.get("exits") and not e.get("filtered"), "effect": e}
+        c = (e.get("carried") or {}).get(t)
+        if c is not None:
+            return {"seq": e["args"][0], "init": c["init"], "acc": c["acc"], "elem": e["elem"], "steps": list(c["steps"]),
+                    "complete": c["every_iteration"] and not e.get("exits"), "effect": e}
+    return None
+
+
+def _all_effs(effs):
+    for e in effs:
+        yield e
+        for p in (e.get("paths") or []) + (e.get("exits") or []):
+            yield from _all_effs(p["eff"])
+
+
+def vec_build(obj, effs):
+    """canonical contents of a vector object built outside loops by push / extend / append / extend_from_slice only:
+    `concat(part, …)` with consecutive pushes grouped as `array(x, …)`; None when it is touched any other way"""
+    parts = []
+    for e in effs:
+        if e["k"] in ("foreach", "loop") and _mentions_term({k: v for k, v in e.items() if k in ("paths", "exits", "args")}, obj):
+            return None
+        if e["k"] == "call" and len(e["args"]) > 1 and e["args"][1] == obj:
+            nm = e["args"][0][1]
+            if nm.endswith("::push") and len(e["args"]) == 3:
+                if parts and parts[-1][0] == "app" and parts[-1][1] == "array" and parts[-1][3:] == ("pushed",):
+                    parts[-1] = ("app", "array", parts[-1][2] + (e["args"][2],), "pushed")
+                else:
+                    parts.append(("app", "array", (e["args"][2],), "pushed"))
+            elif nm.endswith(("::extend", "::append", "::extend_from_slice")) and len(e["args"]) == 3:
+                x = e["args"][2]
+                if x[0] == "iter" and x[2] == "fwd" and not x[3]:
+                    x = x[1]
+                parts.append(x)
+            elif not nm.endswith(("::len", "::is_empty", "::iter", "::as_slice", "::reserve", "::capacity", "::with_capacity")):
+                return None
+    parts = [p[:3] if p[3:] == ("pushed",) else p for p in parts]
+    if not parts:
+        return ("app", "array", ())
+    return parts[0] if len(parts) == 1 else ("app", "concat", tuple(parts))
+
+
+def seq_build(base, effs):
+    """contents of the sequence `base` (a parameter / variable, or a fresh vector object) after the straight-line
+    push / push_back / push_front / insert(0, _) / extend / append calls made on it: a canonical `concat(part, …)` with
+    adjacent single elements grouped as `array(…)`; None when it is modified in a loop or in any other way"""
+    fresh = isinstance(base, tuple) and base[:1] == ("obj",)
+    parts = [] if fresh else [base]
+
+    def one(x, front):
+        tgt = 0 if front else len(parts) - 1
+        if parts and parts[tgt][0] == "app" and parts[tgt][1] == "array" and parts[tgt][3:] == ("built",):
+            xs = parts[tgt][2]
+            parts[tgt] = ("app", "array", ((x,) + xs) if front else (xs + (x,)), "built")
+        elif front:
+            parts.insert(0, ("app", "array", (x,), "built"))
+        else:
+            parts.append(("app", "array", (x,), "built"))
+    touched = False
+    for e in effs:
+        if e["k"] in ("foreach", "loop") and _mentions_term({k: v for k, v in e.items() if k in ("paths", "exits", "args")}, base):
+            return None
+        if e["k"] == "call" and len(e["args"]) > 1 and e["args"][1] == base:
+            nm = e["args"][0][1].rsplit("::", 1)[-1]
+            n = len(e["args"])
+            if nm in ("push", "push_back") and n == 3:
+                one(e["args"][2], False)
+                touched = True
+            elif nm == "push_front" and n == 3:
+                one(e["args"][2], True)
+                touched = True
+            elif nm == "insert" and n == 4 and e["args"][2] == ("lit", 0):
+                one(e["args"][3], True)
+                touched = True
+            elif nm in ("extend", "append", "extend_from_slice") and n == 3:
+                x = e["args"][2]
+                if x[0] == "iter" and x[2] == "fwd" and not x[3]:
+                    x = x[1]
+                parts.append(x)
+                touched = True
+            elif nm not in ("len", "is_empty", "iter", "as_slice", "reserve", "capacity", "with_capacity"):
+                return None
+    if not touched and not fresh:
+        return base
+    parts = [p[:3] if p[3:] == ("built",) else p for p in parts]
+    if not parts:
+        return ("app", "array", ())
+    return parts[0] if len(parts) == 1 else ("app", "concat", tuple(parts))
+
+
+def resolve_built(t, effs):
+    """replace every vector object inside term t by its canonical contents (vec_build) where those are known"""
+    if isinstance(t, tuple):
+        if t[:1] == ("obj",) and len(t) == 3 and t[1] == "Vec":
+            b = vec_build(t, effs)
+            return b if b is not None else t
+        return tuple(resolve_built(x, effs) if isinstance(x, tuple) else x for x in t)
+    return t
 
 
 def _subst_term(t, a, b):
